@@ -1072,10 +1072,24 @@ func (w *srvWorld) sample() any {
 // progress checks, at a quiescent point, that no dispatchable request is
 // waiting without a reason the properties allow (C03 second sentence, C06 work
 // conservation). It returns a description of the first request found stuck.
-func (w *srvWorld) progress() string {
+func (w *srvWorld) progress() string { return w.progressOf(false) }
+
+// progressOf: with dispatchedOnly, only requests whose message has provably
+// been dispatched are judged (some member of that or of a later message has
+// started: dispatch is in arrival order). That is C06's reading ("a dispatched
+// request is waiting"); whether a message may still be undispatched is C03's.
+func (w *srvWorld) progressOf(dispatchedOnly bool) string {
 	w.noteArrivals()
 	if w.stopSeq >= 0 {
 		return ""
+	}
+	lastStarted := -1
+	for _, msg := range w.msgs {
+		for _, m := range msg.Members {
+			if m.Enter >= 0 || m.Logged >= 0 {
+				lastStarted = msg.Idx
+			}
+		}
 	}
 	unfinishedNoteBefore := false
 	for _, msg := range w.msgs {
@@ -1087,6 +1101,9 @@ func (w *srvWorld) progress() string {
 				continue
 			}
 			started := m.Enter >= 0 || (m.Kind == mRPCInfo && m.Logged >= 0) || w.cancelRequested(m)
+			if dispatchedOnly && msg.Idx > lastStarted {
+				continue
+			}
 			if !started && !unfinishedNoteBefore && w.running < w.K {
 				return fmt.Sprintf("request %s (message %d) has not started although no earlier notification is unfinished and only %d of %d slots are in use", m.Tag, msg.Idx, w.running, w.K)
 			}
